@@ -237,6 +237,39 @@ pub fn run(tier: Tier, seed: u64) -> i32 {
         }
     }
 
+    // ---------------- long byte strings (lengths around powers of two) ----------------
+    {
+        let lens = [15usize, 16, 17, 31, 32, 33, 63, 64, 65, 127, 128, 129, 255, 256, 257, 1000];
+        let mut pool: Vec<Vec<u8>> = Vec::new();
+        for l in lens {
+            pool.push(vec![b'a'; l]);
+            let mut t = vec![b'a'; l];
+            t[l - 1] = b'b';
+            pool.push(t);
+        }
+        let mut ctxs: Vec<MCtx> = pool.iter().map(|p| ctx_with("s", Some(V::Bytes(p.clone())))).collect();
+        ctxs.push(ctx_with("s", Some(V::Bytes(vec![]))));
+        ctxs.push(ctx_with("s", None));
+        let b = Bench::new(&tag, uni.clone(), ctxs);
+        let n = pool.len();
+        let mut lists: Vec<Vec<usize>> = (0..n).map(|i| vec![i]).collect();
+        for i in 0..n {
+            for j in i + 1..n {
+                lists.push(vec![i, j]);
+            }
+        }
+        par_for(lists.len(), ncpu(), |k| {
+            let items: Vec<(Vec<u8>, BytesForm)> = lists[k]
+                .iter()
+                .enumerate()
+                .map(|(pos, i)| (pool[*i].clone(), if (k + pos) % 2 == 0 { BytesForm::Quoted } else { BytesForm::Hex(':') }))
+                .collect();
+            let e = Expr::cmp(Lhs::field("s"), CmpOp::In, Rhs::BytesSet(items));
+            note(check_filter(&run, ID, &b, &e));
+        });
+        run.count("long_bytes_lists", lists.len() as u64);
+    }
+
     // ---------------- under [*] ----------------
     {
         let (ctag, cuni) = unis::containers(true);
